@@ -182,17 +182,28 @@ def _build(tree) -> dict[str, tuple[list[str], str, str]]:
 
     def g2():
         fn = _method(tree, "Gaussian2DMaskFunc.mask_func")
-        b = {"num_cols": "cols", "num_rows": "rows", "acceleration": "R", "mask.sum()": "L", "mask[i].sum()": "L"}
-        static = RatTr(b).int(find_assign(fn, "nonzero_count").value)
-        # the dynamic branch passes the same expression (with mask[i]) as first argument of the kernel
+        b = {"num_cols": "cols", "num_rows": "rows", "acceleration": "R"}
+        # the centre-region count of the frame the kernel fills, however the frame is spelled: `<local>.sum()` / `<local>[i].sum()`
+        for n in ast.walk(fn):
+            if (isinstance(n, ast.Call) and isinstance(n.func, ast.Attribute) and n.func.attr == "sum" and not n.args
+                    and not n.keywords and _view_base(n.func.value) is not None):
+                b[ast.unparse(n)] = "L"
+        # every request reaching the kernel: the local `nonzero_count` (every assignment to it) or an inline expression
         calls = [n for n in ast.walk(fn) if isinstance(n, ast.Call) and ast.unparse(n.func) == "gaussian_mask_2d"]
-        firsts = {static}
+        if not calls:
+            raise Untranslatable("no kernel call")
+        firsts = set()
+        for st in all_stmts(fn):
+            if isinstance(st, ast.Assign) and ast.unparse(st.targets[0]) == "nonzero_count":
+                firsts.add(RatTr(b).int(st.value))
         for c in calls:
-            if c.args and not (isinstance(c.args[0], ast.Name) and c.args[0].id == "nonzero_count"):
+            if not c.args:
+                raise Untranslatable("kernel call without positional request")
+            if not (isinstance(c.args[0], ast.Name) and c.args[0].id == "nonzero_count"):
                 firsts.add(RatTr(b).int(c.args[0]))
-        if len(firsts) != 1 or len(calls) != 2:
-            raise Untranslatable("static and per-frame requests differ")
-        return ["rows", "cols", "R", "L"], "Int", static
+        if len(firsts) != 1:
+            raise Untranslatable("requests of the kernel calls differ")
+        return ["rows", "cols", "R", "L"], "Int", firsts.pop()
 
     attempt("gaussian2d_request", g2)
 
@@ -381,11 +392,11 @@ ALLOC = {"np.zeros", "np.ones", "np.empty", "np.zeros_like", "np.ones_like", "np
 COPY_METHODS = {"astype", "copy", "repeat"}
 VIEW_METHODS = {"reshape", "squeeze", "view", "ravel"}
 KERNEL_ARRAYS_EXPECTED = [
-    ("VariableDensityPoissonMaskFunc.poisson:_poisson#0", "mask", ["alloc"]),
-    ("Gaussian1DMaskFunc.mask_func:gaussian_mask_1d#0", "mask[i]", ["copy", "copy"]),
-    ("Gaussian1DMaskFunc.mask_func:gaussian_mask_1d#1", "mask", ["copy", "copy", "view"]),
-    ("Gaussian2DMaskFunc.mask_func:gaussian_mask_2d#0", "mask[i]", ["fresh-call", "copy"]),
-    ("Gaussian2DMaskFunc.mask_func:gaussian_mask_2d#1", "mask", ["fresh-call", "copy", "view"]),
+    ("VariableDensityPoissonMaskFunc.poisson:_poisson", "mask", ["alloc"]),
+    ("Gaussian1DMaskFunc.mask_func:gaussian_mask_1d", "mask[i]", ["copy", "copy"]),
+    ("Gaussian1DMaskFunc.mask_func:gaussian_mask_1d", "mask", ["copy", "copy", "view"]),
+    ("Gaussian2DMaskFunc.mask_func:gaussian_mask_2d", "mask[i]", ["fresh-call", "copy"]),
+    ("Gaussian2DMaskFunc.mask_func:gaussian_mask_2d", "mask", ["fresh-call", "copy", "view"]),
 ]
 
 
@@ -491,9 +502,49 @@ def _value_kind(tree, val, root, depth=0) -> str:
     return "other:" + ast.unparse(val).replace(" ", "")[:40]
 
 
+def _view_base(expr):
+    """name of the local an expression is a view of (`x`, `x[i]`, `x[np.newaxis]`, `x.reshape(..)`, `a if c else b` with
+    both branches views of the same local), else None"""
+    if isinstance(expr, ast.Name):
+        return expr.id
+    if isinstance(expr, ast.Subscript):
+        return _view_base(expr.value)
+    if isinstance(expr, ast.IfExp):
+        a, b = _view_base(expr.body), _view_base(expr.orelse)
+        return a if a is not None and a == b else None
+    if isinstance(expr, ast.Call) and isinstance(expr.func, ast.Attribute) and expr.func.attr in VIEW_METHODS:
+        return _view_base(expr.func.value)
+    return None
+
+
+def _resolve_local(ch, name, before_line):
+    """follow loop variables (`for frame in frames`) and single-assignment view aliases (`frames = mask if c else mask[None]`)
+    back to the local that owns the memory; returns (root name, hops) or (None, reason)"""
+    hops = 0
+    for _ in range(6):
+        loops = [st for st in all_stmts(ch) if isinstance(st, ast.For) and isinstance(st.target, ast.Name)
+                 and st.target.id == name and st.lineno < before_line]
+        assigns = [st for st in all_stmts(ch) if st.lineno < before_line and isinstance(st, ast.Assign)
+                   and any(isinstance(t, ast.Name) and t.id == name for t in st.targets)]
+        if loops and not assigns:
+            base = _view_base(loops[-1].iter)
+            if base is None:
+                return None, "loop-over:" + ast.unparse(loops[-1].iter).replace(" ", "")[:30]
+            name, hops = base, hops + 1
+            continue
+        if len(assigns) == 1 and not loops:
+            base = _view_base(assigns[0].value)
+            if base is not None and base != name:
+                name, hops = base, hops + 1
+                continue
+        return name, hops
+    return None, "alias-chain"
+
+
 def kernel_arrays(tree):
-    """for every call of an in-place Cython kernel: where the array it writes was bound, by every assignment to its root
-    name that lexically precedes the call in the same function"""
+    """for every call of an in-place Cython kernel: where the memory it writes was bound — the array argument is followed
+    through loop variables and view aliases to the local that owns it, then every assignment to that local that lexically
+    precedes the call in the same function is classified"""
     rows = []
 
     def visit(node, prefix):
@@ -509,27 +560,30 @@ def kernel_arrays(tree):
                     idx = seen.get(k, 0)
                     seen[k] = idx + 1
                     pos = KERNEL_ARG[k]
+                    site = f"{prefix}{ch.name}:{k}"
                     if len(c.args) <= pos:
-                        rows.append((f"{prefix}{ch.name}:{k}#{idx}", "?", ["other:argument-form"]))
+                        rows.append((site, "?", ["other:argument-form"]))
                         continue
                     arr = c.args[pos]
-                    root = arr
-                    while isinstance(root, (ast.Subscript, ast.Attribute)):
-                        root = root.value
-                    if not isinstance(root, ast.Name):
-                        rows.append((f"{prefix}{ch.name}:{k}#{idx}", ast.unparse(arr), ["other:not-a-local"]))
+                    first = _view_base(arr)
+                    if first is None:
+                        rows.append((site, ast.unparse(arr), ["other:not-a-local"]))
+                        continue
+                    root, hops = _resolve_local(ch, first, c.lineno)
+                    if root is None:
+                        rows.append((site, ast.unparse(arr).replace(" ", ""), ["other:" + str(hops)]))
                         continue
                     kinds = []
                     for st in all_stmts(ch):
                         if st.lineno >= c.lineno:
                             continue
-                        if isinstance(st, ast.Assign) and any(isinstance(t, ast.Name) and t.id == root.id for t in st.targets):
-                            kinds.append(_value_kind(tree, st.value, root.id))
-                        elif isinstance(st, ast.AugAssign) and isinstance(st.target, ast.Name) and st.target.id == root.id:
+                        if isinstance(st, ast.Assign) and any(isinstance(t, ast.Name) and t.id == root for t in st.targets):
+                            kinds.append(_value_kind(tree, st.value, root))
+                        elif isinstance(st, ast.AugAssign) and isinstance(st.target, ast.Name) and st.target.id == root:
                             kinds.append("view")
-                    if root.id in [a.arg for a in ch.args.args] and not kinds:
+                    if root in [a.arg for a in ch.args.args] and not kinds:
                         kinds = ["other:parameter"]
-                    rows.append((f"{prefix}{ch.name}:{k}#{idx}", ast.unparse(arr).replace(" ", ""), kinds or ["other:unbound"]))
+                    rows.append((site, ast.unparse(arr).replace(" ", ""), (kinds or ["other:unbound"]) + ["view"] * hops))
                 visit(ch, prefix + ch.name + ".")
 
     visit(tree, "")
